@@ -1,0 +1,14 @@
+//go:build verif
+
+// Contracts for the verification machinery in /verif (comment-only; compiled only with -tags verif).
+package v3
+
+//@ kvstore bea_store bea_key
+
+// The parameter migration writes the module's parameter key and nothing else, and only a parameter set that passed
+// Validate - so the stored parameters satisfy the validity rules after the upgrade as well (C16).
+//@ func Migrate(ctx, store, legacySubspace, cdc) (err)
+//@   props C16
+//@   modifies bea_store
+//@   ensures @writes_only_valid_params err == nil ==> bea_store == beaParamsPut(old(bea_store), beaParams(bea_store)) && validDenom(beaParams(bea_store).Denom) && beaParams(bea_store).FeeRegister >= 1 && beaParams(bea_store).FeeRecord >= 1 && beaParams(bea_store).FeePurchaseStorage >= 1 && beaParams(bea_store).DefaultStorageLimit >= 1 && beaParams(bea_store).DefaultStorageLimit <= beaParams(bea_store).MaxStorageLimit
+//@   ensures @rejected_changes_nothing err != nil ==> bea_store == old(bea_store)
